@@ -5958,10 +5958,15 @@ class RemoteBranch(branch.Branch, _RpcHelper, lock._RelockDebugMixin):
             if not medium._is_remote_before((1, 6)):
                 # Use a smart method for 1.6 and above servers
                 try:
+                    # With last_rev the caller asks for the same check the
+                    # fallback below and Branch.generate_revision_history
+                    # make: the previous tip must be merged into the new one.
+                    # The caller holds the write lock, so last_rev is the
+                    # tip the server compares with.
                     self._set_last_revision_descendant(
                         revision_id,
                         other_branch,
-                        allow_diverged=True,
+                        allow_diverged=last_rev is None,
                         allow_overwrite_descendant=True,
                     )
                     return
